@@ -93,6 +93,7 @@ type Action struct {
 type Schedule struct {
 	ID   string            `json:"id"`
 	Ubd0 int64             `json:"ubd0"`
+	Lay  string            `json:"lay"` // height layout (see layouts); "" = "slash"
 	Acts []json.RawMessage `json:"acts"`
 }
 
@@ -100,7 +101,18 @@ const tickDur = 500 * time.Millisecond
 
 // model revision -> real revision number (0x2f = '/'), model height index -> real height
 var revTable = map[int64]uint64{0: 1, 1: 47}
-var heightTable = []uint64{1, 46, 47, 48, 0x2f00, 0x2f01, 0x2f2f, 0x2f0000002f, 0x2f2f2f2f2f2f2f2f}
+var heightTable = layouts["slash"]
+
+// layouts: the real heights that stand for the model's height indices 0..8 in one epoch.  In every layout exactly the
+// index pairs (1,2), (2,3), (4,5) (ADJ of the specification) are consecutive heights.
+//
+//	"slash": big-endian iteration keys contain '/' bytes in several positions
+//	"dec":   decimal strings that are prefixes of each other ("4" of "40", "41", "47", "400", "4000"; "40" of "400", ...),
+//	         so that the string keys consensusStates/<rev>-<height>[/...] of different heights share prefixes
+var layouts = map[string][]uint64{
+	"slash": {1, 46, 47, 48, 0x2f00, 0x2f01, 0x2f2f, 0x2f0000002f, 0x2f2f2f2f2f2f2f2f},
+	"dec":   {1, 4, 5, 6, 40, 41, 47, 400, 4000},
+}
 
 func realRev(r int64) uint64 {
 	if v, ok := revTable[r]; ok {
@@ -219,7 +231,12 @@ func (w *World) valset(id string) *cmttypes.ValidatorSet {
 }
 
 // StartEpoch begins a fresh schedule: time 0, host height 0, no clients.
-func (w *World) StartEpoch(ubd0 int64) {
+func (w *World) StartEpoch(ubd0 int64, lay string) {
+	if t, ok := layouts[lay]; ok {
+		heightTable = t
+	} else {
+		heightTable = layouts["slash"]
+	}
 	w.T0 = w.coord.CurrentTime.Truncate(time.Second).Add(2 * time.Second)
 	w.now = 0
 	w.ubd0 = ubd0
@@ -289,6 +306,8 @@ func (w *World) planUbd(v string) int64 {
 		return w.ubd0 / 2
 	case "gt":
 		return 2 * w.ubd0
+	case "sh":
+		return (3 * w.ubd0) / 4
 	}
 	return w.ubd0
 }
